@@ -19,6 +19,7 @@ func init() { register("C15", "other", true, checkC15) }
 
 func checkC15(p *Prog, r *Report) {
 	ruleRegexpConsts(p, r, "R-RX", "C15", 1)
+	ruleDeviceReadsAudited(p, r, "R15.13")
 	ruleConsoleTypestate(p, r, "R15.10", map[string]bool{"ios": true, "cisco": true}, 10)
 	ruleDialogueConsts(p, r, "R15.11", "C15")
 	r.rule("R15.1", "Typestate schedule -> (changes)* -> cancel -> write: the functions that store true / false into ios.State.reloadActive are the arm and cancel functions; every call site of the IOS change sender (*ios.State).cmd, program-wide, lies in one function in which a call reaching the arm function dominates it and a `defer` of the cancel function is registered before it; the function that writes memory is called by a plain call that comes after the call of that guarded function, so the deferred cancel has run before the save; nothing but reads is sent between.")
